@@ -167,6 +167,13 @@ Theorem c16_composite_save_idempotent : forall t v,
 Proof. exact csave_twice. Qed.
 Print Assumptions c16_composite_save_idempotent.
 
+(* Save of a value whose composite key has a zero-valued member (and is not stored): the value is inserted under
+   its full key, every other row — also those sharing the other key member — stays as it is *)
+Theorem c16_composite_zero_member : forall t v, ckey_zero v = true -> clookup t v = None ->
+  csave t v = mk_result v 1 false 1 (t ++ [v]).
+Proof. exact csave_zero_member. Qed.
+Print Assumptions c16_composite_zero_member.
+
 (* Save of a slice: the table stays well-formed and every element gets a record handed back.  What
    the elements hold afterwards (values, keys handed back, other rows untouched) is tied by the
    correspondence and by C16_Spec.spec_slice evaluated on gorm's outputs only: PARTIAL. *)
